@@ -1682,7 +1682,7 @@ theorem ghostRx_noHs (rs : Spec.Reasm) (n : Nat) (seg : List Nat)
   cases x <;> rfl
 @[simp] theorem inq_setInq_other (l : LMon) (x : Side) (q : List (List Nat)) :
     (l.setInq x.other q).inq x = l.inq x := by cases x <;> rfl
-@[simp] theorem inq_setInq_other' (l : LMon) (x : Side) (q : List (List Nat)) :
+@[simp] theorem inq_setInq_otherSide (l : LMon) (x : Side) (q : List (List Nat)) :
     (l.setInq x q).inq x.other = l.inq x.other := by cases x <;> rfl
 @[simp] theorem other_other (x : Side) : x.other.other = x := by cases x <;> rfl
 
@@ -1864,8 +1864,8 @@ theorem steady_step {l : LMon} (hl : LInv l) (hst : Steady l) {op : Op} {l' : LM
             rw [hf3 hsegno]; exact d.pend
           · simp only [get_setInq, get_set_same]
             exact txRep_congr (e := (l.get y).e) hf1 hf2 d.tx
-          · simp only [inq_setInq_other', inq_set]; exact d.noHs
-          · simp only [inq_setInq_other', inq_set, get_setInq, get_set_other, get_set_same]
+          · simp only [inq_setInq_otherSide, inq_set]; exact d.noHs
+          · simp only [inq_setInq_otherSide, inq_set, get_setInq, get_set_other, get_set_same]
             exact d.q
         · have hyo : y = x.other := by cases x <;> cases y <;> simp_all [Side.other]
           subst hyo
